@@ -73,6 +73,92 @@ def tree_hash(root=None):
     return h.hexdigest()[:16]
 
 
+STUB_CANON = {'sign_internal': ['beta', 'gamma1', 'gamma2', 'omega', 'tau', 'esk', 'message', 'ctx', 'oid', 'phm', 'rnd', 'nist'],
+              'verify_internal': ['beta', 'gamma1', 'gamma2', 'omega', 'tau', 'epk', 'm', 'sig', 'ctx', 'oid', 'phm', 'nist']}
+
+
+def _split_params(txt):
+    out = []; d = 0; cur = ''
+    for ch in txt:
+        if ch in '<([{':
+            d += 1
+        elif ch in '>)]}':
+            d -= 1
+        if ch == ',' and d == 0:
+            out.append(cur); cur = ''
+        else:
+            cur += ch
+    if cur.strip():
+        out.append(cur)
+    res = []
+    for p in out:
+        p = ' '.join(p.split())
+        if ':' not in p:
+            return None
+        n, t = p.split(':', 1)
+        res.append((n.strip(), t.strip()))
+    return res
+
+
+def adapt_stubs(scr):
+    """The wrapper harnesses replace sign_internal / verify_internal by recorders with the same signature.  When the crate's
+    signature lists the *same parameters in another order* (names known, `m` / `message` synonyms), the recorder in this run's copy
+    of kani/wrappers.rs is regenerated with that order and records by name; any other difference leaves the static stubs."""
+    src = open(os.path.join(scr.repo, 'src', 'ml_dsa.rs')).read()
+    wp = os.path.join(scr.kani_dir, 'wrappers.rs')
+    w = open(wp).read()
+    notes = []
+    for fn, canon in STUB_CANON.items():
+        m = re.search(r'pub\(crate\) fn ' + fn + r'<(.*?)>\(\s*(.*?),?\s*\) -> ([^{]+?)\s*\{', src, re.S)
+        if not m:
+            continue
+        params = _split_params(m.group(2))
+        if not params:
+            continue
+        names = [n for n, _ in params]
+        syn = {'message': 'm'} if fn == 'verify_internal' else {'m': 'message'}
+        norm = [syn.get(n, n) for n in names]
+        if norm == canon or sorted(norm) != sorted(canon):
+            continue                    # unchanged, or not a pure reordering of known parameters
+        role = {c: names[norm.index(c)] for c in canon}
+        msg = role['m'] if fn == 'verify_internal' else role['message']
+        key = role['epk'] if fn == 'verify_internal' else role['esk']
+        plist = ', '.join(f'{n}: {t}' for n, t in params)
+        generics = ' '.join(m.group(1).split())
+        common = f"record_common({role['ctx']}, {msg}, {role['oid']}, {role['phm']}, {role['nist']}, [{role['beta']}, {role['gamma1']}, {role['gamma2']}, {role['omega']}, {role['tau']}]);"
+        if fn == 'sign_internal':
+            body = f"""    unsafe {{
+        SIGN_CALLS += 1;
+        {common}
+        REC_RND = {role['rnd']};
+        REC_KEY_PTR = {key} as *const PrivateKey<K, L> as usize;
+        REC_CTEST = CTEST;
+        REC_DIMS = [K, L, LAMBDA_DIV4, SIG_LEN, SK_LEN, W1_LEN];
+    }}
+    [0x5Au8; SIG_LEN]
+"""
+        else:
+            body = f"""    unsafe {{
+        VERIFY_CALLS += 1;
+        {common}
+        REC_SIG_PTR = {role['sig']} as *const [u8; SIG_LEN] as usize;
+        REC_KEY_PTR = {key} as *const PublicKey<K, L> as usize;
+        REC_CTEST = CTEST;
+        REC_DIMS = [K, L, LAMBDA_DIV4, PK_LEN, SIG_LEN, W1_LEN];
+        VERIFY_ANSWER
+    }}
+"""
+        stub = f"pub(crate) fn {fn}_rec<{generics}>({plist}) -> {m.group(3).strip()} {{\n{body}}}\n"
+        mm = re.search(r'pub\(crate\) fn ' + fn + r'_rec<.*?\n\}\n', w, re.S)
+        if not mm:
+            continue
+        w = w[:mm.start()] + stub + w[mm.end():]
+        notes.append(f'{fn}: recorder regenerated for the parameter order {names}')
+    if notes:
+        open(wp, 'w').write(w)
+    return '; '.join(notes)
+
+
 class Scratch:
     """fresh copy of /repo's working tree with the verification modules injected"""
 
@@ -89,11 +175,18 @@ class Scratch:
         self.replay_dir = os.path.join(self.root, 'replay_mod')
         os.makedirs(self.replay_dir)
         open(os.path.join(self.replay_dir, 'mod.rs'), 'w').write('// no replay loaded\n')
+        # the harness module is used from a per-run copy so that the recorder stubs can follow a reordered internal signature
+        self.kani_dir = os.path.join(self.root, 'kani')
+        shutil.copytree(os.path.join(VERIF, 'kani'), self.kani_dir)
+        try:
+            self.stub_note = adapt_stubs(self)
+        except Exception as ex:  # noqa: BLE001 - the static stubs stay in place
+            self.stub_note = 'stub adaptation skipped: ' + repr(ex)[:200]
         with open(os.path.join(self.repo, 'src', 'lib.rs'), 'a') as f:
             f.write(f'''
 
 #[cfg(kani)]
-#[path = "{VERIF}/kani/mod.rs"]
+#[path = "{self.kani_dir}/mod.rs"]
 mod verif_kani;
 
 #[cfg(test)]
